@@ -55,6 +55,6 @@ Print Assumptions ss_restore_after_union_refuted.
 (* Non-vacuity: a history with nested snapshots, holes, negative offset and a union that is
    NOT followed by a restore of an older snapshot satisfies the hypothesis. *)
 Example c11_hypothesis_inhabited :
-  bad (spec_run [ORemove (-1); OSave; OBelow 0; OSave; OOnly 2; ORestore 1; OAbove 2; ORestore 0; OUnion [-1; 7]; OSave; ODiff [0]; ORestore 0]
+  bad (spec_run [ORemove (-1); OSave; OBelow 0; OSave; OOnly 2; ORestore 1; OAbove 2; ORestore 0; OUnion [-1; 7]; OSave; ODiff [0]; ORestore 1]
                 (spec_init (ss_new (-3) 3))) = false.
 Proof. vm_compute. reflexivity. Qed.
